@@ -1,5 +1,9 @@
 import HcipyVerif.Lemmas.NearField
 import HcipyVerif.Lemmas.FourierLinkC04
+import HcipyVerif.Lemmas.NearFieldExec
+import HcipyVerif.Lemmas.NearFieldGRat
+import HcipyVerif.Lemmas.NearFieldMatrixExec
+import HcipyVerif.Lemmas.NearFieldTensor
 
 /-!
 # C04 — near-field propagators are linear, passive, adjoint-backward and additive
@@ -125,8 +129,9 @@ theorem angular_power_nonincreasing (P : FourierPair μ) {e : ι → μ} (he : F
   power_nonincreasing P he
     (fun m => norm_meanOver_le_one (S m) _ fun s _ => angularD_norm_le_one k z (κ2 m s)) x
 
-/-- Unrepaired code: the same holds as long as no evanescent wave is sampled or `z ≥ 0`. -/
-theorem angularDOld_norm_le_one {k z κ2 : ℝ} (h : κ2 ≤ k ^ 2 ∨ 0 ≤ z) : ‖angularDOld k z κ2‖ ≤ 1 := by
+/-- Unrepaired code (namespace `Old`: documentation of finding D30, the code no longer exists in /repo — not evidence
+for the property): the same holds as long as no evanescent wave is sampled or `z ≥ 0`. -/
+theorem Old.angularDOld_norm_le_one {k z κ2 : ℝ} (h : κ2 ≤ k ^ 2 ∨ 0 ≤ z) : ‖angularDOld k z κ2‖ ≤ 1 := by
   by_cases hp : κ2 ≤ k ^ 2
   · rw [angularDOld_of_propagating hp, Complex.norm_exp_ofReal_mul_I]
   · have hz : 0 ≤ z := h.resolve_left hp
@@ -136,7 +141,7 @@ theorem angularDOld_norm_le_one {k z κ2 : ℝ} (h : κ2 ≤ k ^ 2 ∨ 0 ≤ z) 
 
 /-- **Counterexample for the unrepaired code (finding D30).** An evanescent component propagated by a
 negative distance is amplified: the transfer function has modulus `> 1`. -/
-theorem angularDOld_evanescent_grows {k z κ2 : ℝ} (h : k ^ 2 < κ2) (hz : z < 0) :
+theorem Old.angularDOld_evanescent_grows {k z κ2 : ℝ} (h : k ^ 2 < κ2) (hz : z < 0) :
     1 < ‖angularDOld k z κ2‖ := by
   rw [angularDOld_of_evanescent (not_le.mpr h), Complex.norm_exp_ofReal, Real.one_lt_exp_iff]
   have : 0 < Real.sqrt (κ2 - k ^ 2) := Real.sqrt_pos.mpr (by linarith)
@@ -164,14 +169,14 @@ theorem angular_neg_z (k z κ2 : ℝ) : angularD k (-z) κ2 = conj (angularD k z
       Complex.conj_ofReal]
 
 /-- Angular spectrum, unrepaired code: `D_{-z} = conj D_z` where `k_z` is real. -/
-theorem angularOld_neg_z_of_propagating {k z κ2 : ℝ} (h : κ2 ≤ k ^ 2) :
+theorem Old.angularOld_neg_z_of_propagating {k z κ2 : ℝ} (h : κ2 ≤ k ^ 2) :
     angularDOld k (-z) κ2 = conj (angularDOld k z κ2) := by
   rw [angularDOld_of_propagating h, angularDOld_of_propagating h, conj_exp_ofReal_mul_I]
   congr 3; ring
 
 /-- …and fails where it is not: for an evanescent component and `z ≠ 0` the unrepaired transfer function
 of `-z` differs from the conjugate of that of `+z` (finding D30). -/
-theorem angularOld_neg_z_fails_of_evanescent {k z κ2 : ℝ} (h : k ^ 2 < κ2) (hz : z ≠ 0) :
+theorem Old.angularOld_neg_z_fails_of_evanescent {k z κ2 : ℝ} (h : k ^ 2 < κ2) (hz : z ≠ 0) :
     angularDOld k (-z) κ2 ≠ conj (angularDOld k z κ2) := by
   have hs : 0 < Real.sqrt (κ2 - k ^ 2) := Real.sqrt_pos.mpr (by linarith)
   rw [angularDOld_of_evanescent (not_le.mpr h), angularDOld_of_evanescent (not_le.mpr h),
@@ -277,6 +282,13 @@ theorem same_sign_same_branch (p : Params) (z₁ z₂ : ℚ) (hs : 0 ≤ z₁ * 
   have h1 : |z₁| ≤ |z₁ + z₂| := sq_le_sq.mp (by nlinarith [sq_nonneg z₂])
   have h2 : |z₂| ≤ |z₁ + z₂| := sq_le_sq.mp (by nlinarith [sq_nonneg z₁])
   exact ⟨key z₁ h1, key z₂ h2⟩
+
+/-- `same_sign_same_branch` is not vacuous: `z₁ = z₂ = 1/4` on an 8×6 grid, all three on the
+transfer-function branch. -/
+example : ∃ (p : Params) (z₁ z₂ : ℚ), 0 ≤ z₁ * z₂ ∧ 0 ≤ p.lam ∧ 0 < lmax p ∧ z₁ ≠ 0 ∧ z₂ ≠ 0 ∧
+    impulseBranch { p with z := z₁ + z₂ } = false :=
+  ⟨{ kind := .fresnel, nx := 8, ny := 6, dx := 1/4, dy := 1/4, lam := 1/16, z := 0, n := 1, qx := 1, qy := 1,
+     sx := 1, sy := 1 }, 1/4, 1/4, by decide +kernel⟩
 
 /-! ## one propagator object used repeatedly: setters between calls
 
@@ -522,7 +534,539 @@ theorem fresnel_unitary_dft_id (k z : ℝ) (kx ky : Fin My × Fin Mx → ℝ) (x
 
 end dft
 
+/-! ## the propagator the code builds: executable cut-out, executable sample points, the DFT
+
+`propagate p h Dir = filter (dftPair2 (my p) (mx p)) (cutoutEmb p h) (modelD p Dir)` (`Lemmas/NearFieldExec.lean`)
+is assembled from the very definitions the driver runs and the harness compares with the real objects:
+`my`/`mx` (op `setup`: `M=`), `embY`/`embX` (op `emb`; the harness lays the input out with these indices when it
+recomputes `forward` *and* `backward`), `impulseBranch` (`branch=`), `subFreqs` at the `ifftshiftIdx`-ed index
+(op `tfq`: the phases of exactly these sub-samples, compared with the array the real filter multiplies with, in
+FFT layout), and `fftn`/`ifftn` by their specification `Fft.dft2`.  The only hypothesis is `padOK p` (non-empty
+grid, padding factors `≥ 1` — what the driver and hcipy's constructor insist on); `Dir` is the transfer function
+of the impulse-response branch, about which nothing is assumed. -/
+
+section exec
+variable (p : Params) (h : padOK p = true)
+
+/-- The executable cut-out is injective (item (i) of the audit) … -/
+theorem cutout_embedding_injective : Function.Injective (cutoutEmb p h) := cutoutEmb_injective p h
+
+/-- … and a bijection when `cutout p = none` (nothing padded). -/
+theorem cutout_embedding_bijective_of_unpadded (hc : cutout p = none) :
+    Function.Bijective (cutoutEmb p h) := cutoutEmb_bijective p h hc
+
+/-- A padding factor of one on both axes (`zero_padding = 1`) gives `cutout p = none`. -/
+theorem cutout_none_of_unit_padding (hk : p.kind = .fresnel) (hqx : p.qx = 1) (hqy : p.qy = 1) :
+    cutout p = none := by
+  rw [cutout_eq_none_iff]
+  unfold mx my effQx effQy
+  rw [hk]
+  simp only [hqx, hqy]
+  exact ⟨padded_one _, padded_one _⟩
+
+/-- Bridge (ii): with `num_oversampling = 1` the sub-pixel mean has one term — the `meanOver` of the
+`fresnel_*` theorems is the un-averaged `fresnelD` of `fresnel_unitary`. -/
+theorem meanOver_one_subsample {σ : Type*} (s : σ) (f : σ → ℂ) : meanOver {s} f = f s :=
+  meanOver_singleton s f
+
+/-- Bridge (iv): in the regime the property names, the array the filter multiplies with is the sub-pixel mean of
+the native transfer function over the executable sample points — and nothing else. -/
+theorem regime_selects_sampled_transfer_function (hr : statedRegime p = true)
+    (Dir : Fin (my p) × Fin (mx p) → ℂ) (m : Fin (my p) × Fin (mx p)) :
+    modelD p Dir m = sampledTF p (ifftshiftIdx (my p) m.1) (ifftshiftIdx (mx p) m.2) :=
+  modelD_of_tf (statedRegime_tf hr) Dir m
+
+/-- … which for a Fresnel propagator without oversampling is the un-averaged `fresnelD` at the pixel's own
+frequency `2πν`, `k = 2πn/λ` (the `D` of `fresnel_unitary` / `fresnel_additive`). -/
+theorem regime_selects_fresnelD (hr : statedRegime p = true) (hk : p.kind = .fresnel) (hx : p.sx = 1)
+    (hy : p.sy = 1) (Dir : Fin (my p) × Fin (mx p) → ℂ) (m : Fin (my p) × Fin (mx p)) :
+    modelD p Dir m = fresnelD (waveK p) (p.z : ℝ)
+      (2 * Real.pi * ((nu p.dx (mx p) (ifftshiftIdx (mx p) m.2) 0 : ℚ) : ℝ))
+      (2 * Real.pi * ((nu p.dy (my p) (ifftshiftIdx (my p) m.1) 0 : ℚ) : ℝ)) := by
+  rw [modelD_of_tf (statedRegime_tf hr), sampledTF_of_no_oversampling hx hy]
+  unfold nativeAt
+  rw [hk]
+  rfl
+
+/-- Under-sampled transfer function: the filter multiplies with the impulse-response transfer function. -/
+theorem impulse_branch_selects_Dir (hb : impulseBranch p = true) (Dir : Fin (my p) × Fin (mx p) → ℂ) :
+    modelD p Dir = Dir := modelD_of_ir hb Dir
+
+/-- Every regime (either branch, any `Dir`): linear. -/
+theorem propagate_linear (Dir : Fin (my p) × Fin (mx p) → ℂ) (a b : ℂ) (x y : Fin p.ny × Fin p.nx → ℂ) :
+    propagate p h Dir (a • x + b • y) = a • propagate p h Dir x + b • propagate p h Dir y :=
+  filter_linear _ _ _ a b x y
+
+/-- Every regime: `backward` is the exact adjoint of `forward`. -/
+theorem propagate_adjoint (Dir : Fin (my p) × Fin (mx p) → ℂ) (x y : Fin p.ny × Fin p.nx → ℂ) :
+    ip y (propagate p h Dir x) = ip (propagateBack p h Dir y) x :=
+  filter_adjoint _ _ _ x y
+
+/-- Transfer-function branch (in particular the regime the property names, `statedRegime_tf`): power never
+increases — Fresnel or (repaired) angular spectrum, any padding, any oversampling, either sign of `z`. -/
+theorem propagate_power_nonincreasing (hb : impulseBranch p = false) (Dir : Fin (my p) × Fin (mx p) → ℂ)
+    (x : Fin p.ny × Fin p.nx → ℂ) : nsq (propagate p h Dir x) ≤ nsq x :=
+  power_nonincreasing _ (cutoutEmb_injective p h) (norm_modelD_le_one hb Dir) x
+
+theorem propagate_power_nonincreasing_of_statedRegime (hr : statedRegime p = true)
+    (Dir : Fin (my p) × Fin (mx p) → ℂ) (x : Fin p.ny × Fin p.nx → ℂ) :
+    nsq (propagate p h Dir x) ≤ nsq x :=
+  propagate_power_nonincreasing p h (statedRegime_tf hr) Dir x
+
+/-- Bridge (iii): `z` and `-z` take the same branch. -/
+theorem impulseBranch_symmetric_in_z :
+    impulseBranch (withParam p (.distance (-p.z))) = impulseBranch p := impulseBranch_neg_z p
+
+/-- Transfer-function branch: the propagator built for `-z`, forward, is the propagator built for `+z`,
+backward (both are on the same branch by `impulseBranch_symmetric_in_z`). -/
+theorem propagate_neg_z_eq_backward (hb : impulseBranch p = false)
+    (Dir Dir' : Fin (my p) × Fin (mx p) → ℂ) (x : Fin p.ny × Fin p.nx → ℂ) :
+    propagate (withParam p (.distance (-p.z))) h Dir' x = propagateBack p h Dir x := by
+  rw [propagate_withZ]
+  show filter _ (cutoutEmb p h) (modelDz p (-p.z) Dir') x
+    = filter _ (cutoutEmb p h) (fun m => conj (modelD p Dir m)) x
+  congr 1
+  funext m
+  rw [modelDz_of_tf (by rw [impulseBranch_neg_z]; exact hb), modelD_of_tf hb]
+  exact sampledTF_neg_z p _ _
+
+/-- Fresnel, `zero_padding = 1` (`cutout p = none`), `num_oversampling = 1`, transfer-function branch: unitary. -/
+theorem propagate_unitary (hk : p.kind = .fresnel) (hx : p.sx = 1) (hy : p.sy = 1) (hc : cutout p = none)
+    (hb : impulseBranch p = false) (Dir : Fin (my p) × Fin (mx p) → ℂ) (x : Fin p.ny × Fin p.nx → ℂ) :
+    nsq (propagate p h Dir x) = nsq x :=
+  filter_unitary _ (cutoutEmb_bijective p h hc) (norm_modelD_fresnel_unpadded hk hx hy hb Dir) x
+
+/-- … `backward` inverts `forward`. -/
+theorem propagate_backward_inverse (hk : p.kind = .fresnel) (hx : p.sx = 1) (hy : p.sy = 1)
+    (hc : cutout p = none) (hb : impulseBranch p = false) (Dir : Fin (my p) × Fin (mx p) → ℂ)
+    (x : Fin p.ny × Fin p.nx → ℂ) :
+    propagateBack p h Dir (propagate p h Dir x) = x :=
+  filter_backward_inverse _ (cutoutEmb_bijective p h hc) (norm_modelD_fresnel_unpadded hk hx hy hb Dir) x
+
+/-- … and the propagator built for `z₁` followed by the one built for `z₂` (same sign) is the one built for
+`z₁ + z₂`, provided the *sum* is adequately sampled (then all three are on the transfer-function branch,
+`same_sign_same_branch`). -/
+theorem propagate_additive (hk : p.kind = .fresnel) (hx : p.sx = 1) (hy : p.sy = 1) (hc : cutout p = none)
+    (z₁ z₂ : ℚ) (hs : 0 ≤ z₁ * z₂) (hlam : 0 ≤ p.lam) (hL : 0 < lmax p)
+    (hb : impulseBranch (withParam p (.distance (z₁ + z₂))) = false)
+    (Dir₁ Dir₂ Dir₁₂ : Fin (my p) × Fin (mx p) → ℂ) (x : Fin p.ny × Fin p.nx → ℂ) :
+    propagate (withParam p (.distance z₂)) h Dir₂ (propagate (withParam p (.distance z₁)) h Dir₁ x)
+      = propagate (withParam p (.distance (z₁ + z₂))) h Dir₁₂ x := by
+  obtain ⟨hb1, hb2⟩ := same_sign_same_branch p z₁ z₂ hs hlam hL hb
+  rw [propagate_withZ, propagate_withZ, propagate_withZ, filter_comp _ (cutoutEmb_bijective p h hc)]
+  congr 1
+  funext m
+  rw [modelDz_of_tf hb1, modelDz_of_tf hb2, modelDz_of_tf hb, sampledTF_withZ_of_no_oversampling hx hy,
+    sampledTF_withZ_of_no_oversampling hx hy, sampledTF_withZ_of_no_oversampling hx hy,
+    nativeAt_withZ_fresnel hk, nativeAt_withZ_fresnel hk, nativeAt_withZ_fresnel hk]
+  exact fresnelAt_mul p z₁ z₂ _
+
+/-! ### what the driver prints for a transfer-function sample *is* the sample of `modelD`
+
+The harness turns the driver's answer to `tfq` into a complex number by `mean(exp(2πi·turns))` (Fresnel) or
+`mean(exp(2πi z √r))` / `exp(-2π·evz·√(-r))` (angular spectrum) and compares it with the array the real filter
+multiplies with.  These theorems say that this very number is `sampledTF` (hence `modelD` on the
+transfer-function branch, `modelD_of_tf`). -/
+
+theorem exp_turns_frac (t : ℚ) :
+    cexp (((2 * Real.pi * ((frac t : ℚ) : ℝ) : ℝ) : ℂ) * I) = cexp (((2 * Real.pi * ((t : ℚ) : ℝ) : ℝ) : ℂ) * I) := by
+  unfold frac
+  have h : (((2 * Real.pi * ((t - (t.floor : ℚ) : ℚ) : ℝ) : ℝ) : ℂ) * I)
+      = ((2 * Real.pi * (t : ℝ) : ℝ) : ℂ) * I - (t.floor : ℂ) * (2 * Real.pi * I) := by
+    push_cast; ring
+  rw [h, Complex.exp_sub, Complex.exp_int_mul_two_pi_mul_I, div_one]
+
+/-- Fresnel: `sampledTF` is the mean of `exp(2πi t)` over the phases `fresnelSubTurns` the driver prints. -/
+theorem sampledTF_fresnel_eq_turns (p : Params) (hk : p.kind = .fresnel) (hn : p.n ≠ 0) (hl : p.lam ≠ 0)
+    (iy ix : ℕ) :
+    sampledTF p iy ix
+      = listMean ((fresnelSubTurns p ix iy).map fun t => cexp (((2 * Real.pi * ((t : ℚ) : ℝ) : ℝ) : ℂ) * I)) := by
+  unfold sampledTF fresnelSubTurns
+  rw [List.map_map]
+  congr 1
+  apply List.map_congr_left
+  rintro ⟨a, b⟩ _
+  have hnat : nativeAt p = fresnelAt p := by unfold nativeAt; rw [hk]
+  rw [hnat]
+  simp only [Function.comp]
+  rw [exp_turns_frac]
+  exact model_fresnelTurns p a b hn hl
+
+/-- Angular spectrum: the sample at frequency `ν` from the radicand the driver prints — `exp(2πi z √r)` for a
+propagating wave (`r ≥ 0`), `exp(-2π |z| √(-r))` (`evz = |z|`) for an evanescent one. -/
+theorem angularAt_of_radicand (p : Params) (hl : p.lam ≠ 0) (ν : ℚ × ℚ) :
+    angularAt p ν = if 0 ≤ radicand p ν.1 ν.2
+      then cexp (((2 * Real.pi * Real.sqrt ((radicand p ν.1 ν.2 : ℚ) : ℝ) * (p.z : ℝ) : ℝ) : ℂ) * I)
+      else cexp (((-(2 * Real.pi * Real.sqrt (-((radicand p ν.1 ν.2 : ℚ) : ℝ)) * ((evanescentZ p : ℚ) : ℝ)) : ℝ) : ℂ)) := by
+  have hr := model_radicand p ν.1 ν.2 hl
+  have h2pi : (0 : ℝ) ≤ 2 * Real.pi := by positivity
+  unfold angularAt waveK
+  split_ifs with h
+  · have hR : (0 : ℝ) ≤ ((radicand p ν.1 ν.2 : ℚ) : ℝ) := by exact_mod_cast h
+    have hk : (2 * Real.pi * (ν.1 : ℝ)) ^ 2 + (2 * Real.pi * (ν.2 : ℝ)) ^ 2
+        ≤ (2 * Real.pi * (p.n : ℝ) / (p.lam : ℝ)) ^ 2 := by
+      have : 0 ≤ (2 * Real.pi) ^ 2 * ((radicand p ν.1 ν.2 : ℚ) : ℝ) := by positivity
+      linarith
+    rw [angularD_of_propagating hk, hr, Real.sqrt_mul (sq_nonneg _), Real.sqrt_sq h2pi]
+  · have hR : ((radicand p ν.1 ν.2 : ℚ) : ℝ) < 0 := by exact_mod_cast not_le.mp h
+    have hk : ¬ (2 * Real.pi * (ν.1 : ℝ)) ^ 2 + (2 * Real.pi * (ν.2 : ℝ)) ^ 2
+        ≤ (2 * Real.pi * (p.n : ℝ) / (p.lam : ℝ)) ^ 2 := by
+      have : (2 * Real.pi) ^ 2 * ((radicand p ν.1 ν.2 : ℚ) : ℝ) < 0 :=
+        mul_neg_of_pos_of_neg (by positivity) hR
+      intro hle
+      linarith
+    have hneg : (2 * Real.pi * (ν.1 : ℝ)) ^ 2 + (2 * Real.pi * (ν.2 : ℝ)) ^ 2
+        - (2 * Real.pi * (p.n : ℝ) / (p.lam : ℝ)) ^ 2 = (2 * Real.pi) ^ 2 * (-((radicand p ν.1 ν.2 : ℚ) : ℝ)) := by
+      linarith
+    rw [angularD_of_evanescent hk, hneg, Real.sqrt_mul (sq_nonneg _), Real.sqrt_sq h2pi]
+    unfold evanescentZ
+    rw [ratAbs_eq_abs, Rat.cast_abs]
+
+end exec
+
+/-- The hypotheses of the `propagate_*` theorems are satisfiable together: an 8×6 Fresnel propagator with
+`zero_padding = 1`, `num_oversampling = 1` inside the stated regime. -/
+example : ∃ p : Params, padOK p = true ∧ p.kind = .fresnel ∧ p.sx = 1 ∧ p.sy = 1 ∧ cutout p = none ∧
+    statedRegime p = true ∧ impulseBranch p = false ∧ 0 ≤ p.lam ∧ 0 < lmax p :=
+  ⟨{ kind := .fresnel, nx := 8, ny := 6, dx := 1/4, dy := 1/4, lam := 1/16, z := 1/2, n := 1, qx := 1, qy := 1,
+     sx := 1, sy := 1 }, by decide +kernel⟩
+
+/-- … and a padded, oversampled angular-spectrum propagator satisfies `padOK` with a genuine cut-out. -/
+example : ∃ p : Params, padOK p = true ∧ cutout p = some (3, 9, 4, 12) ∧ impulseBranch p = false :=
+  ⟨{ kind := .angular, nx := 8, ny := 6, dx := 1/4, dy := 1/4, lam := 1/16, z := -1/2, n := 1, qx := 1, qy := 1,
+     sx := 2, sy := 2 }, by decide +kernel⟩
+
+/-! ## polarised wavefronts: Stokes-`I` power, matrix-valued transfer functions
+
+`Wavefront.total_power` of a Jones-matrix wavefront with an input Stokes vector is `stokesPower` — the sum over the
+grid of the executable polynomial `stokesI` (driver op `stokesI`, compared with `Wavefront.I` of the real input and
+output wavefronts) times the pixel weight.  `FourierFilter` with a tensor transfer function multiplies with the
+executable `matVec` (`field_dot`) and, backward, with `conjT conj` (`field_conjugate_transpose`) — driver op `mdot`,
+compared with those two hcipy functions; the harness recomputes `forward`/`backward` of the real filter with them. -/
+
+theorem filter_add_smul (P : FourierPair μ) (e : ι → μ) (D : μ → ℂ) (γ : ℂ) (u v : ι → ℂ) :
+    filter P e D (u + γ • v) = filter P e D u + γ • filter P e D v := by
+  have h := filter_linear P e D 1 γ u v
+  simpa using h
+
+/-- **Passivity in the Stokes-`I` form**: a Jones-matrix wavefront with a physical input Stokes vector
+(`0 ≤ S0`, `S1² + S2² + S3² ≤ S0²`, i.e. degree of polarisation `≤ 1`) does not gain total power when every
+component is filtered with `|D| ≤ 1` — although `I` mixes the components (`M13`, `M14` terms). -/
+theorem stokes_power_nonincreasing (P : FourierPair μ) {e : ι → μ} (he : Function.Injective e) {D : μ → ℂ}
+    (hD : ∀ m, ‖D m‖ ≤ 1) (w : ℝ) (hw : 0 ≤ w) (S : Fin 4 → ℝ) (hS0 : 0 ≤ S 0)
+    (hphys : S 1 ^ 2 + S 2 ^ 2 + S 3 ^ 2 ≤ S 0 ^ 2) (E : Fin 2 × Fin 2 → ι → ℂ) :
+    stokesPower w S (filterT P e D E) ≤ stokesPower w S E :=
+  stokesPower_contraction w hw S hS0 hphys (filter P e D) (filter_add_smul P e D)
+    (power_nonincreasing P he hD) E
+
+/-- The same with the hypothesis written as `S0 ≥ √(S1² + S2² + S3²)`. -/
+theorem stokes_power_nonincreasing_sqrt (P : FourierPair μ) {e : ι → μ} (he : Function.Injective e) {D : μ → ℂ}
+    (hD : ∀ m, ‖D m‖ ≤ 1) (w : ℝ) (hw : 0 ≤ w) (S : Fin 4 → ℝ)
+    (hS : Real.sqrt (S 1 ^ 2 + S 2 ^ 2 + S 3 ^ 2) ≤ S 0) (E : Fin 2 × Fin 2 → ι → ℂ) :
+    stokesPower w S (filterT P e D E) ≤ stokesPower w S E := by
+  have h0 : 0 ≤ S 0 := le_trans (Real.sqrt_nonneg _) hS
+  have h1 : S 1 ^ 2 + S 2 ^ 2 + S 3 ^ 2 ≤ S 0 ^ 2 := by
+    exact (Real.sqrt_le_left h0).mp hS
+  exact stokes_power_nonincreasing P he hD w hw S h0 h1 E
+
+/-- On the propagator the code builds (transfer-function branch; Fresnel or repaired angular spectrum). -/
+theorem propagate_stokes_power_nonincreasing (p : Params) (h : padOK p = true) (hb : impulseBranch p = false)
+    (Dir : Fin (my p) × Fin (mx p) → ℂ) (w : ℝ) (hw : 0 ≤ w) (S : Fin 4 → ℝ) (hS0 : 0 ≤ S 0)
+    (hphys : S 1 ^ 2 + S 2 ^ 2 + S 3 ^ 2 ≤ S 0 ^ 2) (E : Fin 2 × Fin 2 → Fin p.ny × Fin p.nx → ℂ) :
+    stokesPower w S (fun t => propagate p h Dir (E t)) ≤ stokesPower w S E :=
+  stokes_power_nonincreasing _ (cutoutEmb_injective p h) (norm_modelD_le_one hb Dir) w hw S hS0 hphys E
+
+/-- `stokesPhysical` (the decidable predicate the driver reports, over `ℚ`) is the hypothesis above. -/
+theorem stokesPhysical_iff (a b c d : ℚ) :
+    stokesPhysical a b c d = true ↔ 0 ≤ a ∧ b ^ 2 + c ^ 2 + d ^ 2 ≤ a ^ 2 := by
+  unfold stokesPhysical
+  simp only [Bool.and_eq_true, decide_eq_true_eq, pow_two]
+
+example : stokesPhysical 1 (1/2) (-1/4) (1/8) = true := by decide +kernel
+
+/-- The hypothesis matters: for the (unphysical) Stokes vector `(0, 1, 0, 0)` the form is `‖x‖² − ‖y‖²`, and
+blocking everything (`D = 0`, certainly `|D| ≤ 1`) *raises* it from `−1/2` to `0`. -/
+theorem stokes_power_unphysical_counterexample :
+    ∃ (P : FourierPair (Fin 1)) (D : Fin 1 → ℂ) (S : Fin 4 → ℝ) (E : Fin 2 × Fin 2 → Fin 1 → ℂ),
+      (∀ m, ‖D m‖ ≤ 1) ∧ stokesPower 1 S E < stokesPower 1 S (filterT P id D E) := by
+  refine ⟨FourierPair.idPair (Fin 1), fun _ => 0, ![0, 1, 0, 0], fun t _ => if t = (0, 1) then 1 else 0,
+    fun m => by simp, ?_⟩
+  simp [stokesPower, stokesI, filterT, filter, crop, mulD, pad, FourierPair.idPair]
+  norm_num
+
+/-- **Matrix-valued transfer function**: `backward` (conjugate transpose at every sample) is the exact adjoint
+of `forward`, for every family of matrices, every padding — vector fields of any length `n`. -/
+theorem filterM_adjoint {n : ℕ} (P : FourierPair μ) (e : ι → μ) (D : μ → Fin n → Fin n → ℂ)
+    (x y : Fin n → ι → ℂ) :
+    ∑ t, ip (y t) (filterM P e D x t) = ∑ t, ip (filterMBackward P e D y t) (x t) :=
+  filterM_adjoint_sum P e D x y
+
+/-- Jones-matrix fields (`field_dot(D, E)` is a matrix product at every sample): column by column. -/
+theorem filterM_adjoint_matrix_field {n k : ℕ} (P : FourierPair μ) (e : ι → μ) (D : μ → Fin n → Fin n → ℂ)
+    (x y : Fin n → Fin k → ι → ℂ) :
+    ∑ l, ∑ t, ip (y t l) (filterM P e D (fun j => x j l) t)
+      = ∑ l, ∑ t, ip (filterMBackward P e D (fun j => y j l) t) (x t l) :=
+  Finset.sum_congr rfl fun l _ => filterM_adjoint_sum P e D (fun j => x j l) (fun j => y j l)
+
+/-- The product at one sample is the matrix–vector product, the backward matrix the conjugate transpose. -/
+theorem filterM_pointwise {n : ℕ} (D : Fin n → Fin n → ℂ) (v : Fin n → ℂ) :
+    matVec D v = Matrix.mulVec (Matrix.of D) v ∧
+      Matrix.of (conjT (fun z => conj z) D) = (Matrix.of D).conjTranspose :=
+  ⟨matVec_eq_mulVec D v, conjT_eq_conjTranspose D⟩
+
+/-- A scalar transfer function is the special case `D m = d m · 1`. -/
+theorem filterM_of_scalar {n : ℕ} (P : FourierPair μ) (e : ι → μ) (d : μ → ℂ) (x : Fin n → ι → ℂ) (t : Fin n) :
+    filterM P e (fun m i j => if i = j then d m else 0) x t = filter P e d (x t) :=
+  filterM_scalar P e d x t
+
+/-- Hypothesis-free, with the executable cut-out: the real `FourierFilter(grid, tensor tf, q)` on the internal
+grid `my p × mx p` of the model. -/
+theorem filterM_adjoint_exec {n : ℕ} (p : Params) (h : padOK p = true)
+    (D : Fin (my p) × Fin (mx p) → Fin n → Fin n → ℂ) (x y : Fin n → Fin p.ny × Fin p.nx → ℂ) :
+    ∑ t, ip (y t) (filterM (dftPair2 (my p) (mx p) (my_pos h) (mx_pos h)) (cutoutEmb p h) D x t)
+      = ∑ t, ip (filterMBackward (dftPair2 (my p) (mx p) (my_pos h) (mx_pos h)) (cutoutEmb p h) D y t) (x t) :=
+  filterM_adjoint_sum _ _ D x y
+
 /-! ### one axis (`fft` / `ifft`, `c = M`) -/
+
+/-! ## The operator of all the theorems above is the pipeline the driver runs
+
+`filterP` / `filterPBackward` (`Model/NearField.lean`: `padAt` at `cutStart`, `Fft.dft2`, multiply, inverse `Fft.dft2`,
+`cropAt`) are scalar-polymorphic; the driver op `filt` runs them on Gaussian rationals (exact kernels of the sizes
+1, 2, 4) and the harness compares the result with the real `FourierFilter.forward` / `.backward`.  Here they are taken
+at `ℂ` with the kernels `exp(∓2πi n/M)`: they *are* `filter (dftPair2 …) (cutoutEmb p h)` (bridge
+`filter_dft2_eq_filterP`), so every clause holds for the executed definition itself (`filterP_*`), and the
+propagators are that pipeline with the transfer function `modelD` (`propagate_eq_filterP`). -/
+
+section pipeline
+variable (p : Params) (h : padOK p = true)
+include h
+
+local notation "runF" => filterP p (kF (my p)) (kF (mx p)) (kB (my p)) (kB (mx p)) (((my p * mx p : ℕ) : ℂ)⁻¹)
+local notation "runB" => filterPBackward (starRingEnd ℂ) p (kF (my p)) (kF (mx p)) (kB (my p)) (kB (mx p))
+  (((my p * mx p : ℕ) : ℂ)⁻¹)
+
+/-- **Bridge**: the abstract `FourierFilter` operator with the DFT of C01/C02 and the executable cut-out is the
+executable pipeline. -/
+theorem filter_dft2_eq_filterP (D : Fin (my p) × Fin (mx p) → ℂ) (x : Fin p.ny × Fin p.nx → ℂ) :
+    filter (dftPair2 (my p) (mx p) (my_pos h) (mx_pos h)) (cutoutEmb p h) D x
+      = fun j => runF (ext2 D) (ext2 x) (j.1 : ℕ) (j.2 : ℕ) :=
+  funext fun j => filter_dft2_apply p h D x j
+
+/-- **Bridge**, `backward`: the pipeline with the conjugated transfer function. -/
+theorem filterBackward_dft2_eq_filterPBackward (D : Fin (my p) × Fin (mx p) → ℂ) (x : Fin p.ny × Fin p.nx → ℂ) :
+    filterBackward (dftPair2 (my p) (mx p) (my_pos h) (mx_pos h)) (cutoutEmb p h) D x
+      = fun j => runB (ext2 D) (ext2 x) (j.1 : ℕ) (j.2 : ℕ) :=
+  funext fun j => filterBackward_dft2_apply p h D x j
+
+/-- The propagators are the executed pipeline with the transfer function `make_instance` selects. -/
+theorem propagate_eq_filterP (Dir : Fin (my p) × Fin (mx p) → ℂ) (x : Fin p.ny × Fin p.nx → ℂ) :
+    propagate p h Dir x = fun j => runF (ext2 (modelD p Dir)) (ext2 x) (j.1 : ℕ) (j.2 : ℕ) :=
+  filter_dft2_eq_filterP p h _ x
+
+theorem propagateBack_eq_filterPBackward (Dir : Fin (my p) × Fin (mx p) → ℂ) (x : Fin p.ny × Fin p.nx → ℂ) :
+    propagateBack p h Dir x = fun j => runB (ext2 (modelD p Dir)) (ext2 x) (j.1 : ℕ) (j.2 : ℕ) :=
+  filterBackward_dft2_eq_filterPBackward p h _ x
+
+/-- Linear: the executed pipeline, any transfer function, any padding. -/
+theorem filterP_linear (D : Fin (my p) × Fin (mx p) → ℂ) (a b : ℂ) (x y : Fin p.ny × Fin p.nx → ℂ)
+    (j : Fin p.ny × Fin p.nx) :
+    runF (ext2 D) (ext2 (a • x + b • y)) (j.1 : ℕ) (j.2 : ℕ)
+      = a * runF (ext2 D) (ext2 x) (j.1 : ℕ) (j.2 : ℕ) + b * runF (ext2 D) (ext2 y) (j.1 : ℕ) (j.2 : ℕ) := by
+  have hl := congrFun (filter_linear (dftPair2 (my p) (mx p) (my_pos h) (mx_pos h)) (cutoutEmb p h) D a b x y) j
+  rw [filter_dft2_eq_filterP, filter_dft2_eq_filterP, filter_dft2_eq_filterP] at hl
+  exact hl
+
+/-- `backward` (the pipeline with `conj D`) is the exact adjoint of `forward`: the executed pipeline, any transfer
+function, any padding. -/
+theorem filterP_adjoint (D : Fin (my p) × Fin (mx p) → ℂ) (x y : Fin p.ny × Fin p.nx → ℂ) :
+    ip y (fun j => runF (ext2 D) (ext2 x) (j.1 : ℕ) (j.2 : ℕ))
+      = ip (fun j => runB (ext2 D) (ext2 y) (j.1 : ℕ) (j.2 : ℕ)) x := by
+  rw [← filter_dft2_eq_filterP p h, ← filterBackward_dft2_eq_filterPBackward p h]
+  exact filter_adjoint _ _ D x y
+
+/-- Passive: `|D| ≤ 1` everywhere ⇒ the executed pipeline never increases the power. -/
+theorem filterP_power_nonincreasing {D : Fin (my p) × Fin (mx p) → ℂ} (hD : ∀ m, ‖D m‖ ≤ 1)
+    (x : Fin p.ny × Fin p.nx → ℂ) :
+    nsq (fun j : Fin p.ny × Fin p.nx => runF (ext2 D) (ext2 x) (j.1 : ℕ) (j.2 : ℕ)) ≤ nsq x := by
+  rw [← filter_dft2_eq_filterP p h]
+  exact power_nonincreasing _ (cutoutEmb_injective p h) hD x
+
+/-- No padding (`cutout p = none`) and `|D| = 1`: the executed pipeline conserves the power … -/
+theorem filterP_unitary (hc : cutout p = none) {D : Fin (my p) × Fin (mx p) → ℂ} (hD : ∀ m, ‖D m‖ = 1)
+    (x : Fin p.ny × Fin p.nx → ℂ) :
+    nsq (fun j : Fin p.ny × Fin p.nx => runF (ext2 D) (ext2 x) (j.1 : ℕ) (j.2 : ℕ)) = nsq x := by
+  rw [← filter_dft2_eq_filterP p h]
+  exact filter_unitary _ (cutoutEmb_bijective p h hc) hD x
+
+/-- … and the executed `backward` pipeline inverts the executed `forward` pipeline. -/
+theorem filterP_backward_inverse (hc : cutout p = none) {D : Fin (my p) × Fin (mx p) → ℂ} (hD : ∀ m, ‖D m‖ = 1)
+    (x : Fin p.ny × Fin p.nx → ℂ) (j : Fin p.ny × Fin p.nx) :
+    runB (ext2 D) (ext2 fun i : Fin p.ny × Fin p.nx => runF (ext2 D) (ext2 x) (i.1 : ℕ) (i.2 : ℕ)) (j.1 : ℕ) (j.2 : ℕ)
+      = x j := by
+  have hi := congrFun (filter_backward_inverse (dftPair2 (my p) (mx p) (my_pos h) (mx_pos h))
+    (cutoutEmb_bijective p h hc) hD x) j
+  rw [filterBackward_dft2_eq_filterPBackward, filter_dft2_eq_filterP] at hi
+  exact hi
+
+end pipeline
+
+/-- On the transfer-function branch that array is the executable `shiftD` (= `np.fft.ifftshift`, what the driver
+applies to the centred transfer function it is given) of the sampled transfer function. -/
+theorem transfer_function_is_ifftshifted {p : Params} (hb : impulseBranch p = false)
+    (Dir : Fin (my p) × Fin (mx p) → ℂ) (m : Fin (my p) × Fin (mx p)) :
+    modelD p Dir m = shiftD (my p) (mx p) (sampledTF p) (m.1 : ℕ) (m.2 : ℕ) := modelD_eq_shiftD hb Dir m
+
+/-! ### what the driver op `filt` computes denotes the complex pipeline
+
+The driver runs `filterP` / `filterPBackward` at the scalar type `GRat` (Gaussian rationals) with the kernels
+`gKerF`, `gKerB` (powers of `i`, exact for the internal sizes 1, 2, 4) and the scale `1/(My·Mx)`.  The complex numbers
+its output denotes are the output of the *same definitions* at `ℂ` with the kernels `exp(∓2πi n/M)` — the operator of
+`filterP_linear`, `filterP_adjoint`, `filterP_power_nonincreasing`, … — applied to the complex numbers the inputs denote. -/
+
+theorem filt_forward_denotes_complex_pipeline (p : Params) (hy : my p = 1 ∨ my p = 2 ∨ my p = 4)
+    (hx : mx p = 1 ∨ mx p = 2 ∨ mx p = 4) (D x : ℕ → ℕ → GRat) (ky kx : ℕ) :
+    GRat.toC (filterP p (gKerF (my p)) (gKerF (mx p)) (gKerB (my p)) (gKerB (mx p))
+        ⟨1 / ((my p * mx p : ℕ) : ℚ), 0⟩ D x ky kx)
+      = filterP p (kF (my p)) (kF (mx p)) (kB (my p)) (kB (mx p)) (((my p * mx p : ℕ) : ℂ)⁻¹)
+          (fun a b => GRat.toC (D a b)) (fun a b => GRat.toC (x a b)) ky kx := by
+  unfold filterP
+  rw [filterN_map GRat.toC GRat.toC_zero GRat.toC_add GRat.toC_mul, toC_scale,
+    funext (toC_gKerF hy), funext (toC_gKerF hx), funext (toC_gKerB hy), funext (toC_gKerB hx)]
+
+theorem filt_backward_denotes_complex_pipeline (p : Params) (hy : my p = 1 ∨ my p = 2 ∨ my p = 4)
+    (hx : mx p = 1 ∨ mx p = 2 ∨ mx p = 4) (D x : ℕ → ℕ → GRat) (ky kx : ℕ) :
+    GRat.toC (filterPBackward GRat.conj p (gKerF (my p)) (gKerF (mx p)) (gKerB (my p)) (gKerB (mx p))
+        ⟨1 / ((my p * mx p : ℕ) : ℚ), 0⟩ D x ky kx)
+      = filterPBackward (starRingEnd ℂ) p (kF (my p)) (kF (mx p)) (kB (my p)) (kB (mx p)) (((my p * mx p : ℕ) : ℂ)⁻¹)
+          (fun a b => GRat.toC (D a b)) (fun a b => GRat.toC (x a b)) ky kx := by
+  unfold filterPBackward filterNBackward
+  rw [filterN_map GRat.toC GRat.toC_zero GRat.toC_add GRat.toC_mul, toC_scale,
+    funext (toC_gKerF hy), funext (toC_gKerF hx), funext (toC_gKerB hy), funext (toC_gKerB hx)]
+  simp only [GRat.toC_conj]
+
+/-- **Every internal size**: the driver op `filtp` runs the same `filterP` on formal phase sums (`Fft.PSum`: finite sums of
+`c·exp(2πi t)` with rational `c`, `t`; kernels `pKerF`, `pKerB` are monomials for every `M`).  The complex number its
+output denotes (`PSum.ev`, which the harness evaluates in floating point and compares with the real
+`FourierFilter.forward`) is the complex pipeline of the theorems on the denoted inputs. -/
+theorem filtp_forward_denotes_complex_pipeline (p : Params) (D x : ℕ → ℕ → Fft.PSum) (ky kx : ℕ) :
+    PSum.ev (filterP p (pKerF (my p)) (pKerF (mx p)) (pKerB (my p)) (pKerB (mx p))
+        (Fft.PSum.ofRat (1 / ((my p * mx p : ℕ) : ℚ))) D x ky kx)
+      = filterP p (kF (my p)) (kF (mx p)) (kB (my p)) (kB (mx p)) (((my p * mx p : ℕ) : ℂ)⁻¹)
+          (fun a b => PSum.ev (D a b)) (fun a b => PSum.ev (x a b)) ky kx := by
+  unfold filterP
+  rw [filterN_map PSum.ev PSum.ev_zero PSum.ev_add PSum.ev_mul, ev_scale,
+    funext (ev_pKerF (my p)), funext (ev_pKerF (mx p)), funext (ev_pKerB (my p)), funext (ev_pKerB (mx p))]
+
+theorem filtp_backward_denotes_complex_pipeline (p : Params) (D x : ℕ → ℕ → Fft.PSum) (ky kx : ℕ) :
+    PSum.ev (filterPBackward psumConj p (pKerF (my p)) (pKerF (mx p)) (pKerB (my p)) (pKerB (mx p))
+        (Fft.PSum.ofRat (1 / ((my p * mx p : ℕ) : ℚ))) D x ky kx)
+      = filterPBackward (starRingEnd ℂ) p (kF (my p)) (kF (mx p)) (kB (my p)) (kB (mx p)) (((my p * mx p : ℕ) : ℂ)⁻¹)
+          (fun a b => PSum.ev (D a b)) (fun a b => PSum.ev (x a b)) ky kx := by
+  unfold filterPBackward filterNBackward
+  rw [filterN_map PSum.ev PSum.ev_zero PSum.ev_add PSum.ev_mul, ev_scale,
+    funext (ev_pKerF (my p)), funext (ev_pKerF (mx p)), funext (ev_pKerB (my p)), funext (ev_pKerB (mx p))]
+  simp only [ev_psumConj]
+
+/-- The inputs of `filtp` (Gaussian rationals written as `a + b·exp(2πi/4)`) denote themselves. -/
+theorem filtp_input_denotes (g : GRat) : PSum.ev (psumOfGRat g) = GRat.toC g := ev_psumOfGRat g
+
+/-! ### the matrix-valued transfer function: the executed pipeline `filterMP` (driver op `filtmp`) -/
+
+section pipelineM
+variable (p : Params) (h : padOK p = true) {n : ℕ}
+include h
+
+local notation "runMF" => filterMP p (kF (my p)) (kF (mx p)) (kB (my p)) (kB (mx p)) (((my p * mx p : ℕ) : ℂ)⁻¹)
+local notation "runMB" => filterMPBackward (starRingEnd ℂ) p (kF (my p)) (kF (mx p)) (kB (my p)) (kB (mx p))
+  (((my p * mx p : ℕ) : ℂ)⁻¹)
+
+/-- **Bridge**: `filterM` with the DFT of C01/C02 and the executable cut-out is the executable pipeline `filterMP`. -/
+theorem filterM_dft2_eq_filterMP (D : Fin (my p) × Fin (mx p) → Fin n → Fin n → ℂ)
+    (x : Fin n → Fin p.ny × Fin p.nx → ℂ) :
+    filterM (dftPair2 (my p) (mx p) (my_pos h) (mx_pos h)) (cutoutEmb p h) D x
+      = fun t j => runMF (fun py px i k => ext2 (fun m => D m i k) py px) (fun k => ext2 (x k)) t (j.1 : ℕ) (j.2 : ℕ) :=
+  funext fun t => funext fun j => filterM_dft2_apply p h D x t j
+
+theorem filterMBackward_dft2_eq_filterMPBackward (D : Fin (my p) × Fin (mx p) → Fin n → Fin n → ℂ)
+    (x : Fin n → Fin p.ny × Fin p.nx → ℂ) :
+    filterMBackward (dftPair2 (my p) (mx p) (my_pos h) (mx_pos h)) (cutoutEmb p h) D x
+      = fun t j => runMB (fun py px i k => ext2 (fun m => D m i k) py px) (fun k => ext2 (x k)) t (j.1 : ℕ) (j.2 : ℕ) :=
+  funext fun t => funext fun j => filterMBackward_dft2_apply p h D x t j
+
+/-- `backward` (the pipeline with the conjugate-transposed matrices) is the exact adjoint of `forward`: the executed
+matrix pipeline, any matrices, any padding, any number of components. -/
+theorem filterMP_adjoint (D : Fin (my p) × Fin (mx p) → Fin n → Fin n → ℂ) (x y : Fin n → Fin p.ny × Fin p.nx → ℂ) :
+    ∑ t, ip (y t) (fun j => runMF (fun py px i k => ext2 (fun m => D m i k) py px) (fun k => ext2 (x k)) t (j.1 : ℕ) (j.2 : ℕ))
+      = ∑ t, ip (fun j => runMB (fun py px i k => ext2 (fun m => D m i k) py px) (fun k => ext2 (y k)) t (j.1 : ℕ) (j.2 : ℕ))
+          (x t) := by
+  have ha := filterM_adjoint_sum (dftPair2 (my p) (mx p) (my_pos h) (mx_pos h)) (cutoutEmb p h) D x y
+  rw [filterM_dft2_eq_filterMP p h, filterMBackward_dft2_eq_filterMPBackward p h] at ha
+  exact ha
+
+end pipelineM
+
+/-- What `filtmp` computes denotes the complex matrix pipeline (every internal size, every `n`). -/
+theorem filtmp_forward_denotes_complex_pipeline {n : ℕ} (p : Params) (D : ℕ → ℕ → Fin n → Fin n → Fft.PSum)
+    (x : Fin n → ℕ → ℕ → Fft.PSum) (t : Fin n) (ky kx : ℕ) :
+    PSum.ev (filterMP p (pKerF (my p)) (pKerF (mx p)) (pKerB (my p)) (pKerB (mx p))
+        (Fft.PSum.ofRat (1 / ((my p * mx p : ℕ) : ℚ))) D x t ky kx)
+      = filterMP p (kF (my p)) (kF (mx p)) (kB (my p)) (kB (mx p)) (((my p * mx p : ℕ) : ℂ)⁻¹)
+          (fun a b i k => PSum.ev (D a b i k)) (fun k a b => PSum.ev (x k a b)) t ky kx := by
+  unfold filterMP
+  rw [filterMN_map PSum.ev PSum.ev_zero PSum.ev_add PSum.ev_mul, ev_scale,
+    funext (ev_pKerF (my p)), funext (ev_pKerF (mx p)), funext (ev_pKerB (my p)), funext (ev_pKerB (mx p))]
+
+theorem filtmp_backward_denotes_complex_pipeline {n : ℕ} (p : Params) (D : ℕ → ℕ → Fin n → Fin n → Fft.PSum)
+    (x : Fin n → ℕ → ℕ → Fft.PSum) (t : Fin n) (ky kx : ℕ) :
+    PSum.ev (filterMPBackward psumConj p (pKerF (my p)) (pKerF (mx p)) (pKerB (my p)) (pKerB (mx p))
+        (Fft.PSum.ofRat (1 / ((my p * mx p : ℕ) : ℚ))) D x t ky kx)
+      = filterMPBackward (starRingEnd ℂ) p (kF (my p)) (kF (mx p)) (kB (my p)) (kB (mx p)) (((my p * mx p : ℕ) : ℂ)⁻¹)
+          (fun a b i k => PSum.ev (D a b i k)) (fun k a b => PSum.ev (x k a b)) t ky kx := by
+  unfold filterMPBackward filterMNBackward
+  rw [filterMN_map PSum.ev PSum.ev_zero PSum.ev_add PSum.ev_mul, ev_scale,
+    funext (ev_pKerF (my p)), funext (ev_pKerF (mx p)), funext (ev_pKerB (my p)), funext (ev_pKerB (mx p))]
+  unfold conjT
+  simp only [ev_psumConj]
+
+/-! ### the Fresnel propagator, computed exactly by the driver (op `prop`) -/
+
+/-- **The driver's exact Fresnel propagation denotes `propagate`**: on the transfer-function branch, the complex number
+denoted by `filterP` on formal phase sums with the transfer function `fresnelTFP` is `propagate p h Dir` of the denoted
+input, pixel by pixel. -/
+theorem prop_denotes_propagate (p : Params) (h : padOK p = true) (hk : p.kind = .fresnel) (hn : p.n ≠ 0) (hl : p.lam ≠ 0)
+    (hb : impulseBranch p = false) (Dir : Fin (my p) × Fin (mx p) → ℂ) (X : ℕ → ℕ → Fft.PSum) (j : Fin p.ny × Fin p.nx) :
+    PSum.ev (filterP p (pKerF (my p)) (pKerF (mx p)) (pKerB (my p)) (pKerB (mx p))
+        (Fft.PSum.ofRat (1 / ((my p * mx p : ℕ) : ℚ))) (fresnelTFP p) X (j.1 : ℕ) (j.2 : ℕ))
+      = propagate p h Dir (fun i => PSum.ev (X (i.1 : ℕ) (i.2 : ℕ))) j := by
+  have e1 : PSum.ev (filterP p (pKerF (my p)) (pKerF (mx p)) (pKerB (my p)) (pKerB (mx p))
+        (Fft.PSum.ofRat (1 / ((my p * mx p : ℕ) : ℚ))) (fresnelTFP p) X (j.1 : ℕ) (j.2 : ℕ))
+      = filterP p (kF (my p)) (kF (mx p)) (kB (my p)) (kB (mx p)) (((my p * mx p : ℕ) : ℂ)⁻¹)
+          (fun a b => PSum.ev (fresnelTFP p a b)) (fun a b => PSum.ev (X a b)) (j.1 : ℕ) (j.2 : ℕ) := by
+    unfold filterP
+    rw [filterN_map PSum.ev PSum.ev_zero PSum.ev_add PSum.ev_mul, ev_scale,
+      funext (ev_pKerF (my p)), funext (ev_pKerF (mx p)), funext (ev_pKerB (my p)), funext (ev_pKerB (mx p))]
+  rw [e1]
+  unfold propagate
+  rw [filter_dft2_apply]
+  unfold filterP
+  apply filterN_congr
+  · intro a ha b hb'
+    unfold ext2
+    rw [dif_pos ⟨ha, hb'⟩, modelD_of_tf hb]
+    show _ = sampledTF p (ifftshiftIdx (my p) a) (ifftshiftIdx (mx p) b)
+    rw [sampledTF_fresnel_eq_turns p hk hn hl]
+    exact ev_psumMeanTurns _
+  · intro a ha b hb'
+    unfold ext2
+    rw [dif_pos ⟨ha, hb'⟩]
+
+
+/-- The hypotheses of the pipeline theorems are satisfiable with a genuinely padded, exactly executable size
+(`2×3` padded to `4×4`, the kernels of which are powers of `i`: a case the driver op `filt` runs). -/
+example : ∃ p : Params, padOK p = true ∧ my p = 4 ∧ mx p = 4 ∧ cutout p = some (1, 4, 1, 3) :=
+  ⟨{ kind := .fresnel, nx := 2, ny := 3, dx := 1/4, dy := 1/4, lam := 1/16, z := 1/2, n := 1, qx := 2, qy := 4/3,
+     sx := 1, sy := 1 }, by decide +kernel⟩
 
 section dft1
 variable (M : ℕ) (hM : 0 < M)
